@@ -139,6 +139,11 @@ func runCase(phase string, i int) worker.Result {
 	}
 	enriched := rng.IntN(2) == 0
 	conc := []int{0, 1, 2, 4}[rng.IntN(4)]
+	// variants: link-closed pre-population of the destination (e.g. a second
+	// ExtendedCopy after an ancestor was copied), and - for registry sources - one
+	// referrers request answered 404 in the middle of the walk
+	prepopulate := rng.IntN(4) == 0
+	faultReferrers := remote && rng.IntN(5) == 0
 
 	// ---- expected closure on generator truth
 	type item struct{ n, d int }
@@ -257,6 +262,50 @@ func runCase(phase string, i int) worker.Result {
 		return res
 	}
 	cleanup = append(cleanup, dh.Close)
+	var prepop []int
+	if prepopulate {
+		var picks []int
+		for j, k := 0, 1+rng.IntN(3); j < k; j++ {
+			if len(all) > 1 && rng.IntN(2) == 0 {
+				picks = append(picks, all[rng.IntN(len(all))]) // an ancestor (or the start node)
+			} else {
+				picks = append(picks, rng.IntN(len(g.Nodes)))
+			}
+		}
+		prepop = g.DownClosure(picks)
+		if err := gen.PushAll(ctx, dh.Target, g, prepop, func(e error) bool { return errors.Is(e, errdef.ErrAlreadyExists) }); err != nil {
+			res.Violate("harness:populate", "pre-populate destination: "+err.Error(), nil)
+			return res
+		}
+	}
+	faultHit := false
+	if faultReferrers && sh.Reg != nil {
+		nth := 2 + rng.IntN(3)
+		seen := 0
+		isReferrersReq := func(rec *regmodel.Record) bool {
+			if rec.Method != "GET" {
+				return false
+			}
+			if rec.Kind == "referrers" {
+				return true
+			}
+			return rec.Kind == "manifest" && strings.HasPrefix(rec.Ref, "sha256-") // tag schema
+		}
+		sh.Reg.Before = func(rec *regmodel.Record) *regmodel.Response {
+			if !isReferrersReq(rec) {
+				return nil
+			}
+			seen++
+			if seen == nth {
+				faultHit = true
+				if rec.Kind == "referrers" {
+					return &regmodel.Response{Status: 404} // bare 404 in the middle of the walk
+				}
+				return &regmodel.Response{Status: 500}
+			}
+			return nil
+		}
+	}
 
 	m := copymon.New(g)
 	m.DelaySeed = rng.Uint64()
@@ -281,7 +330,7 @@ func runCase(phase string, i int) worker.Result {
 		}
 	}
 	witness := func() map[string]any {
-		return map[string]any{"source": kind, "api": api, "start": start, "depth": depth, "filter": f, "enriched_descriptors": enriched, "concurrency": conc,
+		return map[string]any{"source": kind, "api": api, "start": start, "depth": depth, "filter": f, "enriched_descriptors": enriched, "concurrency": conc, "prepopulated": prepop, "referrers_fault_injected": faultHit,
 			"dag": g.Describe(g.Roots()...), "push_order": order, "expected_exact": exact, "expected_upper": upper, "pushed": m.PushedNodes()}
 	}
 	cctx, cancel := context.WithTimeout(ctx, 4*time.Minute)
@@ -301,6 +350,9 @@ func runCase(phase string, i int) worker.Result {
 	}
 	if err != nil {
 		res.Count("calls_failed", 1)
+		if faultHit {
+			res.Count("failed_after_referrers_fault", 1)
+		}
 		res.Observe("failures", kind+"/"+trim(err.Error()))
 		if os.Getenv("VERIF_DEBUG") != "" {
 			fmt.Fprintf(os.Stderr, "case %d (%s) failed: %v\n", i, kind, err)
@@ -308,6 +360,12 @@ func runCase(phase string, i int) worker.Result {
 		return res
 	}
 	res.Count("calls_succeeded", 1)
+	if faultHit {
+		res.Count("succeeded_despite_referrers_fault", 1)
+	}
+	if prepopulate {
+		res.Count("cases_prepopulated", 1)
+	}
 	if len(m.Closure) > 0 {
 		res.Violate("closure-at-push", m.Closure[0], witness())
 		return res
@@ -351,7 +409,7 @@ func runCase(phase string, i int) worker.Result {
 			res.Violate("missing-ancestor-graph:"+fclass, fmt.Sprintf("nodes %v of the upward closure's graphs are missing (source %s)", miss, kind), w)
 			return res
 		}
-		if extra := diff(got, inSet(exact)); len(extra) > 0 {
+		if extra := diff(got, inSet(append(append([]int{}, exact...), prepop...))); len(extra) > 0 {
 			w := witness()
 			w["got"] = got
 			res.Violate("extra-nodes:"+fclass, fmt.Sprintf("nodes %v were copied although no followed predecessor reaches them (source %s)", extra, kind), w)
@@ -362,7 +420,7 @@ func runCase(phase string, i int) worker.Result {
 			res.Violate("depth:own-graph-missing", fmt.Sprintf("nodes %v of the start node's own graph are missing", miss), witness())
 			return res
 		}
-		if extra := diff(got, inSet(upper)); len(extra) > 0 {
+		if extra := diff(got, inSet(append(append([]int{}, upper...), prepop...))); len(extra) > 0 {
 			w := witness()
 			w["got"] = got
 			res.Violate("depth:beyond-limit", fmt.Sprintf("nodes %v lie outside the graphs of ancestors within %d steps", extra, depth), w)
@@ -381,7 +439,7 @@ func runCase(phase string, i int) worker.Result {
 		}
 	}
 	res.Count("nodes_verified", int64(len(got)))
-	res.Key = fmt.Sprintf("%s|%d|d%d|%s|%s|%s|%v", g.Shape(all...), start, depth, fclass+f.Regex+f.Key, kind, api, enriched)
+	res.Key = fmt.Sprintf("%s|%d|d%d|%s|%s|%s|%v|p%v|f%v", g.Shape(all...), start, depth, fclass+f.Regex+f.Key, kind, api, enriched, prepop, faultHit)
 	properAnc := len(all) - 1
 	res.NT = properAnc >= 2 && (f.Kind == "" || (kept >= 1 && dropped >= 1))
 	if f.Kind != "" && kept >= 1 && dropped >= 1 {
